@@ -18,3 +18,11 @@ CHECKS["C20"] = dict(
     thorough=dict(shards=16, checks=40000, timeout=1500),
     assumptions=["AES-GCM authentication is trusted to reject what it rejects; the check only observes outcomes", "wallet keys derived from drawn seeds via ed25519.NewKeyFromSeed"],
 )
+
+CHECKS["C08"] = dict(
+    test="TestC08", level="exploration", exhaustive_part=True,
+    exhaustive_part_text="every cancellation index k in 0..n+1 for every cancellable operation on chain and wide DAGs of the listed small sizes; early-exit kinds and stream x writer scenarios are fixed representatives plus random draws",
+    quick=dict(shards=8, checks=40, timeout=600),
+    thorough=dict(shards=16, checks=500, timeout=3000),
+    assumptions=["goroutine-profile text format of the Go runtime (state names, frame names)", "one node per case; inter-node wedges are out of scope"],
+)
